@@ -17,7 +17,9 @@ def _norm_dtype(d):
     if isinstance(d, type):
         return {'float': 'float', 'int': 'int64', 'bool': 'bool'}.get(d.__name__, 'float')
     s = str(d).split('.')[-1]
-    if s in ('float', 'float64', 'float32', 'double', 'float_'):
+    if s in ('float32', 'single', 'float16', 'half'):
+        return 'float32'
+    if s in ('float', 'float64', 'double', 'float_'):
         return 'float'
     if s in ('int', 'int_', 'intp'):
         return 'int64'
@@ -33,6 +35,9 @@ def _norm_dtype(d):
 def _coerce(v, dtype):
     if dtype in ('complex', 'object'):
         return v
+    if dtype == 'float32':
+        # a store into a single-precision table rounds to 24 bits (and overflows to inf beyond 3.4e38)
+        return _f32(v) if isinstance(v, (int, float)) and not isinstance(v, complex) else v
     if dtype == 'float' or dtype is None:
         return float(v) if isinstance(v, (int, bool)) else v
     if dtype == 'bool':
@@ -228,6 +233,10 @@ def _elem(v, dtype):
     return v
 
 
+def Unsupported_(msg):
+    return orders.Unsupported(msg)
+
+
 class Arr(orders.PyStub):
     isa = ('ndarray',)
 
@@ -288,6 +297,11 @@ class Arr(orders.PyStub):
         return [self._norm(k, axis)], False
 
     def __getitem__(self, key):
+        if isinstance(key, Arr) and key.dtype == 'bool':
+            if key.shape != self.shape:
+                raise IndexError('boolean index did not match indexed array')
+            sel = [off for off, m_ in zip(self._index, key.tolist_flat()) if m_]
+            return Arr((len(sel),), self._store, sel, self.dtype)
         if len(self.shape) == 1:
             if isinstance(key, tuple) and len(key) == 1:
                 key = key[0]
@@ -308,6 +322,19 @@ class Arr(orders.PyStub):
         return Arr(shape, self._store, idx, self.dtype)
 
     def __setitem__(self, key, value):
+        if isinstance(key, Arr) and key.dtype == 'bool':
+            # boolean mask: the elements where the mask is true
+            if key.shape != self.shape:
+                raise IndexError('boolean index did not match indexed array')
+            sel = [off for off, m_ in zip(self._index, key.tolist_flat()) if m_]
+            vals = value.tolist_flat() if isinstance(value, Arr) else ([value] * len(sel) if not isinstance(value, (list, tuple)) else list(value))
+            if len(vals) != len(sel):
+                raise ValueError('NumPy boolean array indexing assignment cannot assign %d input values to the %d output values' % (len(vals), len(sel)))
+            for off, v in zip(sel, vals):
+                self._store[off] = _coerce(v, self.dtype)
+            return
+        if isinstance(key, (bool, NpBool)):
+            raise Unsupported_('array indexed with a scalar boolean')
         tgt = self[key] if self._is_region(key) else None
         if tgt is None:
             self._store[self._index[self._flat(key)]] = _coerce(value, self.dtype)
@@ -399,8 +426,45 @@ class Arr(orders.PyStub):
     def __neg__(self):
         return self._zip(-1, lambda a, b: a * b)
 
-    def __eq__(self, o):
+    def same(self, o):
+        """structural equality (for the checker's own use)"""
         return isinstance(o, Arr) and o.shape == self.shape and o.tolist_flat() == self.tolist_flat()
+
+    def _cmp(self, o, op):
+        if isinstance(o, Arr):
+            if o.shape != self.shape:
+                raise ValueError('operands could not be broadcast together with shapes %r %r' % (self.shape, o.shape))
+            vals = [bool(op(a, b)) for a, b in zip(self.tolist_flat(), o.tolist_flat())]
+        elif isinstance(o, (int, float, complex, NpF32, NpBool)):
+            vals = [bool(op(a, o)) for a in self.tolist_flat()]
+        else:
+            return NotImplemented
+        return Arr(self.shape, vals, list(range(self.size)), 'bool')
+
+    # comparisons are element-wise, as in numpy (a mask usable as an index)
+    def __eq__(self, o):
+        r = self._cmp(o, lambda a, b: a == b)
+        return False if r is NotImplemented else r
+
+    def __ne__(self, o):
+        r = self._cmp(o, lambda a, b: a != b)
+        return True if r is NotImplemented else r
+
+    def __lt__(self, o): return self._cmp(o, lambda a, b: a < b)
+    def __le__(self, o): return self._cmp(o, lambda a, b: a <= b)
+    def __gt__(self, o): return self._cmp(o, lambda a, b: a > b)
+    def __ge__(self, o): return self._cmp(o, lambda a, b: a >= b)
+
+    def __bool__(self):
+        if self.size != 1:
+            raise ValueError('The truth value of an array with more than one element is ambiguous. Use a.any() or a.all()')
+        return bool(self.tolist_flat()[0])
+
+    def any(self, *a, **k):
+        return NpBool(any(self.tolist_flat()))
+
+    def all(self, *a, **k):
+        return NpBool(all(self.tolist_flat()))
 
     def __hash__(self):
         return id(self)
@@ -444,6 +508,38 @@ def make(values, dtype='float'):
     shape = _shape_of(values)
     d = _norm_dtype(dtype)
     return Arr(shape, [_coerce(v, d) for v in _flatten(values)], None if False else list(range(len(_flatten(values)))), d)
+
+
+class DType(str):
+    """np.float32, np.uint8 ...: a dtype name that can also be called to make a scalar of that type"""
+
+    def __call__(self, v=0):
+        d = _norm_dtype(str(self))
+        if d == 'float32':
+            return NpF32(v)
+        if d == 'float':
+            return NpF64(float(v))
+        if d == 'bool':
+            return NpBool(v)
+        return NpInt(_coerce(v, d), d)
+
+
+def isclose(a, b, rtol=1e-05, atol=1e-08, **kw):
+    def one(x, y):
+        x, y = float(x), float(y)
+        if x != x or y != y:
+            return False
+        if x in (float('inf'), float('-inf')) or y in (float('inf'), float('-inf')):
+            return x == y
+        return abs(x - y) <= atol + rtol * abs(y)
+    if isinstance(a, Arr) or isinstance(b, Arr):
+        A = a if isinstance(a, Arr) else None
+        B = b if isinstance(b, Arr) else None
+        ref = A if A is not None else B
+        xs = A.tolist_flat() if A is not None else [a] * ref.size
+        ys = B.tolist_flat() if B is not None else [b] * ref.size
+        return Arr(ref.shape, [one(x, y) for x, y in zip(xs, ys)], list(range(ref.size)), 'bool')
+    return NpBool(one(a, b))
 
 
 def stubs():
@@ -600,6 +696,11 @@ def stubs():
         'add': elementwise(lambda x, y: x + y), 'subtract': elementwise(lambda x, y: x - y),
         'argmin': arg(min), 'argmax': arg(max), 'absolute': unary(abs),
         'shape': lambda a: a.shape,
+        'isclose': isclose, 'allclose': lambda a, b, **k: NpBool(all(isclose(a, b, **k).tolist_flat()) if isinstance(isclose(a, b, **k), Arr) else isclose(a, b, **k)),
+        'isnan': unary(lambda v: v != v), 'isinf': unary(lambda v: v in (float('inf'), float('-inf'))), 'isfinite': unary(lambda v: v == v and v not in (float('inf'), float('-inf'))),
+        'nan': float('nan'), 'NaN': float('nan'), 'inf': float('inf'), 'pi': 3.141592653589793, 'e': 2.718281828459045,
+        'float64': DType('float64'), 'float32': DType('float32'), 'float16': DType('float16'), 'double': DType('float64'), 'single': DType('float32'),
+        'int64': DType('int64'), 'int32': DType('int32'), 'int16': DType('int16'), 'int8': DType('int8'), 'uint8': DType('uint8'), 'uint16': DType('uint16'), 'bool_': DType('bool'),
     }
 
 
